@@ -1,46 +1,395 @@
-import TplModel.Exp.Parse
-import TplModel.Html.CodeScan
-/-! # C10 — expressions and ${} blocks are consumed whole or rejected at load
+import TplModel.Proofs.C10Proofs
+/-! # C10 — an expression string, a `${…}` block and a directive value are interpreted in full or rejected at load
 
-Interim obligations (the general theorems `parseCode_consumes_all`, `codescan_complete` are task T17):
-the acceptance rule of `EL.parseCode` itself — nothing but ONE non-";" EOS may follow the expression — and kernel-checked
-instances of every suffix class of the property. -/
+Models (unchanged): `EL.lex` / `EL.parseCode` (`exp/parser.go` `ParseCode`, `GoLexer.g4`) and `CS.scan`
+(`html/scan_code.go`, `CodeScanner.GetAllTokens`).  Helper lemmas: `TplModel/Proofs/C10Proofs.lean`.
+
+Part A: `ParseCode` accepts only when the expression consumed every token, apart from at most one trailing
+non-`;` `EOS` (newline run / multi-line comment); any other leftover, a `;`, and an unlexable rest are rejected.
+
+Part B: a successful scan of a directive value consists of the opening quote, literals and *closed* `${ … }`
+blocks, and the closing quote; the end of input inside a literal, a block or a string is an error; the fuel
+of `CS.scan` is never exhausted.
+
+One statement of the task is **false on the model (and on the Go code)** as given: after the closing quote has
+been read in state `codeEnd`, `scanQuot` sets `done` and `GetAllTokens` stops, so text *after* the closing quote
+is not looked at (`"abc"xyz` succeeds with the tokens of `"abc"`; `""'x` succeeds with three quote tokens).
+Such values cannot come out of the HTML scanner (a quoted attribute value ends at the first re-occurrence of
+its opening quote), so the theorems about *complete* consumption carry exactly that hypothesis
+(`quoteOnlyAtEnd v`); the unconditional versions (`codescan_prefix`, `scan_success_quotes`) and the
+counterexamples (`codescan_complete_false`) are given as well. -/
 namespace C10
+open EL
 
-/-- `parseCode` accepts only when the parser consumed every token, except for one trailing EOS that is not ";" -/
-theorem parseCode_accept_shape (s : String) (e : EL.E) (h : EL.parseCode s = .accept e) :
-    ∃ ts, EL.lex s = .ok ts ∧
-      (EL.expr (4 * ts.length + 8) 0 ts = some (e, []) ∨
-       ∃ t, t ≠ ";" ∧ EL.expr (4 * ts.length + 8) 0 ts = some (e, [.eos t])) := by
-  unfold EL.parseCode at h
-  split at h
-  · cases h
-  · cases h
-  · rename_i ts hl
-    refine ⟨ts, hl, ?_⟩
-    split at h
-    · rename_i e' he; cases h; exact Or.inl he
-    · rename_i e' t he
+/-! ## A. parser side -/
+
+/-- `ParseCode` accepts exactly when the expression parser stops at the end of the token list or in front of
+    one final `EOS` token that is not `;` (unfolding of the definition) -/
+theorem parseCode_accept_iff (s : String) (e : E) :
+    parseCode s = .accept e ↔
+      ∃ ts, lex s = .ok ts ∧
+        ((expr (4 * ts.length + 8) 0 ts = some (e, [])) ∨
+         (∃ t, t ≠ ";" ∧ expr (4 * ts.length + 8) 0 ts = some (e, [.eos t]))) := by
+  unfold parseCode
+  cases hl : lex s with
+  | err => simp
+  | unsupported => simp
+  | ok ts =>
+    simp only [LexRes.ok.injEq, exists_eq_left']
+    split
+    · rename_i e' h1
+      simp [h1]
+    · rename_i e' t h1
       by_cases ht : t = ";"
-      · simp [ht] at h
-      · simp [ht] at h; cases h; exact Or.inr ⟨t, ht, he⟩
-    · cases h
+      · simp [h1, ht]
+      · simp only [ht, if_false, h1]
+        simp
+        exact fun _ => ht
+    · rename_i h1 h2
+      constructor
+      · intro h; cases h
+      · rintro (h | ⟨t, _, h⟩)
+        · exact (h1 _ h).elim
+        · exact (h2 _ _ h).elim
 
-def accepted (s : String) : Bool := match EL.parseCode s with | .accept _ => true | _ => false
+/-- a lexable text is accepted or rejected (never `unsupported`) -/
+theorem parseCode_of_lex_ok {s : String} {ts : List Tok} (hl : lex s = .ok ts) :
+    (∃ e, parseCode s = .accept e) ∨ parseCode s = .reject := by
+  unfold parseCode
+  simp only [hl]
+  split
+  · exact Or.inl ⟨_, rfl⟩
+  · split
+    · exact Or.inr rfl
+    · exact Or.inl ⟨_, rfl⟩
+  · exact Or.inr rfl
 
-theorem rejects_after_semicolon : accepted "1;2" = false ∧ accepted "1;" = false ∧ accepted "a;[}'//" = false := by decide +kernel
-theorem rejects_after_newline : accepted "a\n+b" = false ∧ accepted "a\n2" = false ∧ accepted "a\n\"/*" = false := by decide +kernel
-theorem rejects_operand_and_bracket : accepted "a b" = false ∧ accepted "a)" = false ∧ accepted "a]" = false ∧ accepted "a}" = false ∧ accepted "a #" = false := by decide +kernel
-theorem accepts_insignificant_trailer : accepted "a\n" = true ∧ accepted "a /* x\ny */" = true ∧ accepted "a // c" = true ∧ accepted " a " = true := by decide +kernel
+/-- Accepted ⇒ the token list of `s` is exactly the run of tokens consumed by the expression (`consumed`)
+    followed by nothing or by one non-`;` `EOS`; no token follows, and there is no unlexable rest
+    (`.lexerr ∉ ts`). -/
+theorem parseCode_consumes_all (s : String) (e : E) (h : parseCode s = .accept e) :
+    ∃ ts consumed tail, lex s = .ok ts ∧ ts = consumed ++ tail ∧
+      expr (4 * ts.length + 8) 0 ts = some (e, tail) ∧
+      (tail = [] ∨ ∃ t, t ≠ ";" ∧ tail = [.eos t]) ∧ Tok.lexerr ∉ ts := by
+  obtain ⟨ts, hl, h⟩ := (parseCode_accept_iff s e).1 h
+  rcases h with h | ⟨t, ht, h⟩
+  · obtain ⟨c, hc, hn⟩ := expr_consumed h
+    exact ⟨ts, c, [], hl, hc, h, Or.inl rfl, by rw [hc]; simpa using hn⟩
+  · obtain ⟨c, hc, hn⟩ := expr_consumed h
+    exact ⟨ts, c, [.eos t], hl, hc, h, Or.inr ⟨t, ht, rfl⟩, by rw [hc]; simpa using hn⟩
 
-def scanOK (v : String) : Bool :=
-  match (CS.scan ⟨1, 1⟩ v.toList).getLast? with
-  | some t => !(t.value == "ERR".toList && t.start.line == 0)
-  | none => false
+/-- Whenever the expression parser (with any fuel) stops in front of a non-empty rest that is not a single
+    non-`;` `EOS`, the text is rejected. -/
+theorem leftover_rejected {s : String} {ts rest : List Tok} {e : E} {f : Nat}
+    (hl : lex s = .ok ts) (he : expr f 0 ts = some (e, rest))
+    (hne : rest ≠ []) (hrest : ∀ t, rest = [.eos t] → t = ";") : parseCode s = .reject := by
+  rcases parseCode_of_lex_ok hl with ⟨e', ha⟩ | hr
+  · exfalso
+    obtain ⟨ts', hl', h⟩ := (parseCode_accept_iff s e').1 ha
+    rw [hl] at hl'; cases hl'
+    have key : ∀ tail, expr (4 * ts.length + 8) 0 ts = some (e', tail) → tail = rest := by
+      intro tail h'
+      have a := expr_mono he (Nat.le_max_left f (4 * ts.length + 8))
+      have b := expr_mono h' (Nat.le_max_right f (4 * ts.length + 8))
+      rw [a] at b; cases b; rfl
+    rcases h with h | ⟨t, ht, h⟩
+    · exact hne (key _ h).symm
+    · exact ht (hrest t (key _ h).symm)
+  · exact hr
 
-theorem truncated_values_rejected :
-    scanOK "\"abc${\"" = false ∧ scanOK "\"${a\"" = false ∧ scanOK "\"${'x\"" = false ∧ scanOK "\"abc" = false ∧ scanOK "" = false := by decide +kernel
-theorem wellformed_values_accepted :
-    scanOK "\"abc\"" = true ∧ scanOK "\"\"" = true ∧ scanOK "\"${a}\"" = true ∧ scanOK "\"a${'}'}b\"" = true ∧ scanOK "'x ${\"{\"} $ y'" = true := by decide +kernel
+/-- a parse failure is a rejection -/
+theorem parse_failure_rejected {s : String} {ts : List Tok}
+    (hl : lex s = .ok ts) (he : expr (4 * ts.length + 8) 0 ts = none) : parseCode s = .reject := by
+  unfold parseCode; simp only [hl, he]
+
+/-- `e ; …` is rejected, whatever follows the semicolon -/
+theorem trailing_semicolon_rejected {s : String} {ts rest : List Tok} {e : E} {f : Nat}
+    (hl : lex s = .ok (ts ++ .eos ";" :: rest))
+    (he : expr f 0 (ts ++ .eos ";" :: rest) = some (e, .eos ";" :: rest)) : parseCode s = .reject :=
+  leftover_rejected hl he (by simp) (by intro t h; cases h; rfl)
+
+/-- the expression grammar never steps over a token-recognition error … -/
+theorem expr_keeps_lexerr {f p : Nat} {ts rest : List Tok} {e : E}
+    (h : expr f p ts = some (e, rest)) (hm : Tok.lexerr ∈ ts) : Tok.lexerr ∈ rest := by
+  obtain ⟨c, hc, hn⟩ := expr_consumed h
+  rw [hc, List.mem_append] at hm
+  exact hm.resolve_left hn
+/-- … and neither do the other four parser functions -/
+theorem parser_keeps_lexerr (f : Nat) :
+    (∀ p l ts e r, loop f p l ts = some (e, r) → Tok.lexerr ∈ ts → Tok.lexerr ∈ r) ∧
+    (∀ ts e r, primary f ts = some (e, r) → Tok.lexerr ∈ ts → Tok.lexerr ∈ r) ∧
+    (∀ l ts e r, suffix f l ts = some (e, r) → Tok.lexerr ∈ ts → Tok.lexerr ∈ r) ∧
+    (∀ ts acc as b r, args f ts acc = some (as, b, r) → Tok.lexerr ∈ ts → Tok.lexerr ∈ r) := by
+  have key : ∀ {ts r : List Tok}, Cons ts r → Tok.lexerr ∈ ts → Tok.lexerr ∈ r := by
+    rintro ts r ⟨c, hc, hn⟩ hm
+    rw [hc, List.mem_append] at hm
+    exact hm.resolve_left hn
+  obtain ⟨_, hL, hP, hS, hA⟩ := consumed_all f
+  exact ⟨fun p l ts e r h => key (hL p l ts e r h), fun ts e r h => key (hP ts e r h),
+    fun l ts e r h => key (hS l ts e r h), fun ts acc as b r h => key (hA ts acc as b r h)⟩
+
+/-- a text with an unlexable rest is rejected -/
+theorem lexerr_rejected {s : String} {ts : List Tok} (hl : lex s = .ok ts) (hm : Tok.lexerr ∈ ts) :
+    parseCode s = .reject := by
+  cases he : expr (4 * ts.length + 8) 0 ts with
+  | none => exact parse_failure_rejected hl he
+  | some x =>
+    obtain ⟨e, rest⟩ := x
+    have hr := expr_keeps_lexerr he hm
+    refine leftover_rejected hl he (by intro h; rw [h] at hr; cases hr) ?_
+    intro t h; rw [h] at hr; simp at hr
+
+/-! ### examples (kernel evaluation; non-vacuity) -/
+
+example : (parseCode "1;2").isReject = true := by decide +kernel
+example : (parseCode "a\n+b").isReject = true := by decide +kernel
+example : (parseCode "1;").isReject = true := by decide +kernel
+example : (parseCode "a)").isReject = true := by decide +kernel
+example : (parseCode "a #").isReject = true := by decide +kernel
+example : (parseCode "nil;[}'//").isReject = true := by decide +kernel
+example : parseCode "a\n" = .accept (.name "a") := by rfl
+example : parseCode "a /* x\ny */" = .accept (.name "a") := by rfl
+example : parseCode "a // c" = .accept (.name "a") := by rfl
+example : (parseCode "f(a, 1)[2:].b\n").isAccept = true := by decide +kernel
+
+/-- `parseCode_consumes_all` / `parseCode_accept_iff`: both shapes of acceptance occur -/
+example : lex "a+b" = .ok [.ident "a", .op "+", .ident "b"] ∧
+    expr (4 * 3 + 8) 0 [.ident "a", .op "+", .ident "b"] = some (.bin "+" (.name "a") (.name "b"), []) :=
+  ⟨by decide +kernel, by rfl⟩
+example : lex "a\n" = .ok [.ident "a", .eos "\n"] ∧
+    expr (4 * 2 + 8) 0 [.ident "a", .eos "\n"] = some (.name "a", [.eos "\n"]) := ⟨by decide +kernel, by rfl⟩
+/-- `trailing_semicolon_rejected`: hypotheses satisfiable (with a small fuel), conclusion as evaluated -/
+example : parseCode "1;2" = .reject :=
+  trailing_semicolon_rejected (ts := [.int "1"]) (rest := [.int "2"]) (f := 5) (by decide +kernel) (by rfl)
+/-- `leftover_rejected`: the rest `)` -/
+example : parseCode "a)" = .reject :=
+  leftover_rejected (ts := [.ident "a", .op ")"]) (rest := [.op ")"]) (f := 3) (by decide +kernel) (by rfl) (by simp)
+    (by intro t h; cases h)
+/-- `lexerr_rejected`: `#` is not a token of the expression language -/
+example : parseCode "a #" = .reject :=
+  lexerr_rejected (ts := [.ident "a", .lexerr]) (by decide +kernel) (by simp)
+
+/-! ## B. code scanner side -/
+open CS
+open HS (Pos)
+
+/-- the opening character does not occur strictly inside the value (what the HTML scanner guarantees for a
+    quoted attribute value: it ends at the first re-occurrence of its opening quote) -/
+def quoteOnlyAtEnd : List Char → Bool
+  | [] => true
+  | q :: t => !(t.dropLast.contains q)
+
+theorem quoteOnlyAtEnd_spec {v : List Char} (h : quoteOnlyAtEnd v = true) {q : Char} {mid rest : List Char}
+    (hv : v = q :: (mid ++ q :: rest)) : rest = [] := by
+  subst hv
+  cases rest with
+  | nil => rfl
+  | cons r rs =>
+    exfalso
+    simp only [quoteOnlyAtEnd, Bool.not_eq_true', List.contains_eq_mem, decide_eq_false_iff_not] at h
+    apply h
+    rw [List.dropLast_append_of_ne_nil (by simp), List.dropLast_cons_of_ne_nil (by simp)]
+    simp
+
+/-- General form (every `v`): a successful scan accounts for a *prefix* of `v` (1'), starts with a quote token
+    and ends with a quote token (2'), and every `${` token is followed by its code-value and `}` tokens (3). -/
+theorem codescan_prefix (start : Pos) (v : List Char) (h : Succ (scan start v)) :
+    (∃ rest, v = concat (scan start v) ++ rest) ∧
+    (∃ q q' p1 p2 p3, isQuote q = true ∧ isQuote q' = true ∧
+      (scan start v).head? = some ⟨.begEnd, start, p1, [q]⟩ ∧
+      (scan start v).getLast? = some ⟨.begEnd, p2, p3, [q']⟩ ∧ 2 ≤ (scan start v).length) ∧
+    blocksClosed (scan start v) = true := by
+  obtain ⟨q, p, new, rest, hq, hs, ht, hv⟩ := scan_shape start v h
+  have hne : new ≠ [] := by cases ht <;> simp
+  rw [hs]
+  refine ⟨⟨rest, by simp [hv]⟩, ?_, by simpa [blocksClosed] using ht.blocksClosed⟩
+  have hlen : 2 ≤ (({ kind := .begEnd, start := start, stop := p, value := [q] } : CTok) :: new).length := by
+    cases new with
+    | nil => exact absurd rfl hne
+    | cons a b => simp
+  rcases ht.last with ⟨m, a, b, _, h2⟩ | ⟨m, q', a, b, hq', _, h2⟩
+  · exact ⟨q, q, p, a, b, hq, hq, rfl, by rw [List.getLast?_cons_of_ne_nil hne]; exact h2, hlen⟩
+  · exact ⟨q, q', p, a, b, hq, hq', rfl, by rw [List.getLast?_cons_of_ne_nil hne]; exact h2, hlen⟩
+
+/-- General form: a value can only be scanned successfully if it starts with a quote character and that same
+    character occurs again (the closing quote was actually read). -/
+theorem scan_success_quotes (start : Pos) (v : List Char) (h : Succ (scan start v)) :
+    ∃ q mid rest, isQuote q = true ∧ v = q :: (mid ++ q :: rest) := by
+  obtain ⟨q, p, new, rest, hq, _, ht, hv⟩ := scan_shape start v h
+  rcases ht.last with ⟨m, _, _, h1, _⟩ | ⟨m, q', _, _, _, h1, _⟩
+  · exact ⟨q, m, rest, hq, by rw [hv, h1]; simp⟩
+  · exact ⟨q, m, q' :: rest, hq, by rw [hv, h1]; simp⟩
+
+/- Full statement asked for (FALSE on the model and on scan_code.go, see `codescan_complete_false`):
+     theorem codescan_complete (start v) (h : Succ (scan start v)) :
+       concat (scan start v) = v ∧ (first and last token are `begEnd` quotes with the same character) ∧
+       blocksClosed (scan start v)
+   What is missing: text after the closing quote is never read.  Proved with the hypothesis that the opening
+   character does not occur strictly inside `v`: -/
+/-- (1) every rune of the value is accounted for by the tokens, (2) the first and the last token are quote
+    tokens with the same character, (3) every `${` is followed by its code-value and `}` tokens. -/
+theorem codescan_complete_partial (start : Pos) (v : List Char) (hq : quoteOnlyAtEnd v = true)
+    (h : Succ (scan start v)) :
+    concat (scan start v) = v ∧
+    (∃ q p1 p2 p3, isQuote q = true ∧ (scan start v).head? = some ⟨.begEnd, start, p1, [q]⟩ ∧
+      (scan start v).getLast? = some ⟨.begEnd, p2, p3, [q]⟩ ∧ 2 ≤ (scan start v).length) ∧
+    blocksClosed (scan start v) = true := by
+  obtain ⟨q, p, new, rest, hqq, hs, ht, hv⟩ := scan_shape start v h
+  have hgen := codescan_prefix start v h
+  have hne : new ≠ [] := by cases ht <;> simp
+  rcases ht.last with ⟨m, a, b, h1, h2⟩ | ⟨m, q', a, b, _, h1, _⟩
+  · have hr : rest = [] := quoteOnlyAtEnd_spec hq (q := q) (mid := m) (rest := rest) (by rw [hv, h1]; simp)
+    subst hr
+    refine ⟨by rw [hs, hv]; simp, ?_, hgen.2.2⟩
+    obtain ⟨_, _, _, _, _, _, _, _, _, hlen⟩ := hgen.2.1
+    rw [hs] at hlen ⊢
+    exact ⟨q, p, a, b, hqq, rfl, by rw [List.getLast?_cons_of_ne_nil hne]; exact h2, hlen⟩
+  · have hr : q' :: rest = [] :=
+      quoteOnlyAtEnd_spec hq (q := q) (mid := m) (rest := q' :: rest) (by rw [hv, h1]; simp)
+    cases hr
+
+/-- the unrestricted `codescan_complete` fails: trailing text after the closing quote is not read -/
+theorem codescan_complete_false :
+    (Succ (scan ⟨1, 1⟩ "\"abc\"xyz".toList) ∧ concat (scan ⟨1, 1⟩ "\"abc\"xyz".toList) = "\"abc\"".toList) ∧
+    (Succ (scan ⟨1, 1⟩ "\"\"'x".toList) ∧ concat (scan ⟨1, 1⟩ "\"\"'x".toList) = "\"\"'".toList) := by
+  decide +kernel
+
+/- Full statement asked for (FALSE for the same reason: `"abc"xyz`):
+     theorem scan_success_ends_with_quote (h : Succ (scan start v)) :
+       v ≠ [] ∧ v.getLast? = v.head? ∧ (v.head? = some '"' ∨ v.head? = some '\'')
+   General version: `scan_success_quotes`.  With the hypothesis of the HTML scanner: -/
+/-- a successfully scanned value is non-empty and its last character equals its first character, which is `"` or `'` -/
+theorem scan_success_ends_with_quote_partial (start : Pos) (v : List Char) (hq : quoteOnlyAtEnd v = true)
+    (h : Succ (scan start v)) :
+    ∃ q body, (q = '"' ∨ q = '\'') ∧ v = q :: (body ++ [q]) := by
+  obtain ⟨q, mid, rest, hqq, hv⟩ := scan_success_quotes start v h
+  have hr := quoteOnlyAtEnd_spec hq hv
+  subst hr
+  exact ⟨q, mid, by simpa [isQuote] using hqq, hv⟩
+
+/-- No proper prefix of a value whose opening character occurs only at its end can be scanned successfully:
+    a truncated directive value is a load error (it is not rendered as a shorter / empty text). -/
+theorem truncated_rejected (start : Pos) (v p : List Char) (hq : quoteOnlyAtEnd v = true)
+    (hp : p <+: v) (hne : p ≠ v) : ¬ Succ (scan start p) := by
+  intro h
+  obtain ⟨q, mid, rest, _, hpv⟩ := scan_success_quotes start p h
+  obtain ⟨ext, hext⟩ := hp
+  have hr : rest ++ ext = [] :=
+    quoteOnlyAtEnd_spec hq (q := q) (mid := mid) (rest := rest ++ ext) (by rw [← hext, hpv]; simp)
+  have : ext = [] := (List.append_eq_nil_iff.1 hr).2
+  subst this
+  exact hne (by simpa using hext)
+
+/-! ### end of input inside a literal, a block or a string is an error -/
+
+theorem scanLiteral_eof (f : Nat) (s : S) (start : Pos) (buf : List Char) :
+    scanLiteral (f + 1) s start buf [] = s.fail := by simp [scanLiteral]
+theorem scanCode_eof (f : Nat) (s : S) (start : Pos) (buf : List Char) :
+    scanCode (f + 1) s start buf [] = s.fail := by simp [scanCode]
+theorem scanString_eof (q : Char) (f : Nat) (p : Pos) (acc : List Char) :
+    scanString q f p [] acc = none := by cases f <;> simp [scanString]
+theorem scanQuot_eof_opening (f : Nat) (s : S) : scanQuot (f + 1) s false [] = s.fail := by simp [scanQuot]
+theorem S.fail_last (s : S) : s.fail.getLast? = some errMark := by simp [S.fail]
+
+/-- in the literal part: input without the closing quote character ends in the error marker -/
+theorem eof_inside_literal_fails (f : Nat) (s : S) (start : Pos) (buf cs : List Char)
+    (hf : cs.length + 1 ≤ f) (hb : s.firstCh ∉ buf) (hc : s.firstCh ∉ cs) :
+    (scanLiteral f s start buf cs).getLast? = some errMark := by
+  obtain ⟨new, h1, h2 | ⟨rest, ht, hr⟩⟩ := (scan_main f).1 s start buf cs hf
+  · rw [h1]; exact (h2.append _).last
+  · exfalso
+    have := ht.mem
+    have h3 : s.firstCh ∈ buf.reverse ++ cs := by rw [hr]; simp [this]
+    simp at h3
+    exact h3.elim hb hc
+/-- inside `${ …`: input without the closing quote character ends in the error marker
+    (so does, in particular, every input without an unnested `}`) -/
+theorem eof_inside_block_fails (f : Nat) (s : S) (start : Pos) (buf cs : List Char)
+    (hf : cs.length + 1 ≤ f) (hb : s.firstCh ∉ buf) (hc : s.firstCh ∉ cs) :
+    (scanCode f s start buf cs).getLast? = some errMark := by
+  obtain ⟨new, h1, h2 | ⟨rest, _, _, _, _, code, tl, _, ht, hr⟩⟩ := (scan_main f).2 s start buf cs hf
+  · rw [h1]; exact (h2.append _).last
+  · exfalso
+    have := ht.mem
+    have h3 : s.firstCh ∈ buf.reverse ++ cs := by rw [hr]; simp [this]
+    simp at h3
+    exact h3.elim hb hc
+/-- inside a string of a block: input without the string's closing quote is an error, with any fuel
+    (`scanCode` turns `none` into `s.fail`) -/
+theorem eof_inside_string_fails (q : Char) (f : Nat) (p : Pos) (cs acc : List Char) (h : q ∉ cs) :
+    scanString q f p cs acc = none := scanString_no_quote q f p cs acc h
+
+/-! ### the fuel is never exhausted -/
+
+/-- The outcome of `CS.scan` does not depend on its fuel `3 * v.length + 3`: every fuel `≥ v.length + 2` gives
+    the same token list, i.e. the `0`-fuel branches are not reached (together with `scan_main`: the output is
+    either a failure marked by `errMark` or a complete value, never the bare token list of a `0` branch). -/
+theorem fuel_sufficient (start : Pos) (v : List Char) (f : Nat) (hf : v.length + 2 ≤ f) :
+    scanQuot f ⟨start, ' ', 0, []⟩ false v = scan start v := by
+  unfold scan
+  cases v with
+  | nil =>
+    obtain ⟨f', rfl⟩ : ∃ f', f = f' + 1 := ⟨f - 1, by omega⟩
+    simp [scanQuot]
+  | cons c rest =>
+    simp only [List.length_cons] at hf
+    obtain ⟨f', rfl⟩ : ∃ f', f = f' + 1 := ⟨f - 1, by omega⟩
+    have e : 3 * (rest.length + 1) + 3 = (3 * rest.length + 5) + 1 := by omega
+    rw [List.length_cons, e]; simp only [scanQuot]
+    split
+    · simp only [Bool.false_eq_true, if_false]
+      exact (fuel_indep f').1 _ _ _ _ _ (by omega) (by omega)
+    · rfl
+/-- the same for the three inner functions and for the string skipper (whose fuel is `rest.length + 1`) -/
+theorem fuel_sufficient_inner (f g : Nat) (s : S) (start : Pos) (buf cs : List Char)
+    (hf : cs.length + 1 ≤ f) (hg : cs.length + 1 ≤ g) :
+    scanLiteral f s start buf cs = scanLiteral g s start buf cs ∧
+    scanCode f s start buf cs = scanCode g s start buf cs ∧
+    scanQuot f s true cs = scanQuot g s true cs ∧
+    ∀ q p, scanString q f p cs buf = scanString q g p cs buf := by
+  refine ⟨(fuel_indep f).1 g s start buf cs hf hg, (fuel_indep f).2 g s start buf cs hf hg, ?_,
+    fun q p => scanString_fuel_indep q f g p cs buf hf hg⟩
+  obtain ⟨f', rfl⟩ : ∃ f', f = f' + 1 := ⟨f - 1, by omega⟩
+  obtain ⟨g', rfl⟩ : ∃ g', g = g' + 1 := ⟨g - 1, by omega⟩
+  simp only [scanQuot_closing]
+
+/-! ### examples (kernel evaluation; non-vacuity) -/
+
+example : ¬ Succ (scan ⟨1, 1⟩ "\"abc${".toList) := by decide +kernel
+example : ¬ Succ (scan ⟨1, 1⟩ "\"${a".toList) := by decide +kernel
+example : ¬ Succ (scan ⟨1, 1⟩ "\"${'x".toList) := by decide +kernel
+example : ¬ Succ (scan ⟨1, 1⟩ "\"abc".toList) := by decide +kernel
+example : ¬ Succ (scan ⟨1, 1⟩ "\"${a}".toList) := by decide +kernel
+example : ¬ Succ (scan ⟨1, 1⟩ "abc".toList) := by decide +kernel
+example : ¬ Succ (scan ⟨1, 1⟩ []) := by decide +kernel
+example : Succ (scan ⟨1, 1⟩ "\"abc\"".toList) := by decide +kernel
+example : Succ (scan ⟨1, 1⟩ "\"\"".toList) := by decide +kernel
+example : Succ (scan ⟨1, 1⟩ "\"${a}\"".toList) := by decide +kernel
+example : Succ (scan ⟨1, 1⟩ "\"a${'}'}b\"".toList) := by decide +kernel
+example : (scan ⟨1, 1⟩ "\"a${'}'}b\"".toList).map (fun t => (t.kind, String.ofList t.value)) =
+    [(.begEnd, "\""), (.literal, "a"), (.codeStart, "${"), (.codeValue, "'}'"), (.codeEnd, "}"), (.literal, "b"),
+     (.begEnd, "\"")] := by decide +kernel
+
+/-- `codescan_complete_partial`, `scan_success_ends_with_quote_partial`: hypotheses satisfiable on a value with
+    a literal, a block containing a string with `}` and `{`, nested braces, and the other quote character -/
+def sample : List Char := "\"a'${ f({x: '}{'}) }b$\"".toList
+example : quoteOnlyAtEnd sample = true ∧ Succ (scan ⟨3, 7⟩ sample) := by decide +kernel
+example : concat (scan ⟨3, 7⟩ sample) = sample :=
+  (codescan_complete_partial ⟨3, 7⟩ sample (by decide +kernel) (by decide +kernel)).1
+example : concat (scan ⟨3, 7⟩ sample) = sample ∧ blocksClosed (scan ⟨3, 7⟩ sample) = true := by decide +kernel
+/-- `truncated_rejected`: instantiated, and checked independently on every proper prefix of `sample` -/
+example : ¬ Succ (scan ⟨3, 7⟩ (sample.take 9)) :=
+  truncated_rejected ⟨3, 7⟩ sample _ (by decide +kernel) (List.take_prefix _ _) (by decide +kernel)
+example : ∀ n, n < sample.length → ¬ Succ (scan ⟨3, 7⟩ (sample.take n)) := by decide +kernel
+/-- the hypothesis `quoteOnlyAtEnd` is necessary for `truncated_rejected` and for completeness -/
+example : Succ (scan ⟨1, 1⟩ "\"abc\"xy".toList) ∧ "\"abc\"xy".toList <+: "\"abc\"xyz".toList := by decide +kernel
+/-- `eof_inside_*`: hypotheses satisfiable -/
+example : (scanCode 9 ⟨⟨1, 1⟩, '"', 0, []⟩ ⟨1, 1⟩ [] "a + {b}".toList).getLast? = some errMark :=
+  eof_inside_block_fails _ _ _ _ _ (by decide +kernel) (by decide +kernel) (by decide +kernel)
+example : (scanLiteral 9 ⟨⟨1, 1⟩, '"', 0, []⟩ ⟨1, 1⟩ [] "abc $ 'x".toList).getLast? = some errMark :=
+  eof_inside_literal_fails _ _ _ _ _ (by decide +kernel) (by decide +kernel) (by decide +kernel)
+/-- `fuel_sufficient`: e.g. fuel `|v| + 2` instead of `3|v| + 3` -/
+example : scanQuot (sample.length + 2) ⟨⟨3, 7⟩, ' ', 0, []⟩ false sample = scan ⟨3, 7⟩ sample :=
+  fuel_sufficient _ _ _ (Nat.le_refl _)
 
 end C10
